@@ -29,6 +29,9 @@ def _is_fresh_value(v: ast.expr) -> bool:
     if isinstance(v, (ast.List, ast.Dict, ast.Set, ast.ListComp, ast.DictComp, ast.SetComp, ast.Tuple, ast.Constant,
                       ast.JoinedStr)):
         return True
+    if isinstance(v, ast.Await) and isinstance(v.value, ast.Call) and ast.unparse(v.value.func) in (
+            "asyncio.gather", "gather_if_necessary"):
+        return True  # both return a list created by the call
     if isinstance(v, ast.Call):
         f = v.func
         name = f.id if isinstance(f, ast.Name) else f.attr if isinstance(f, ast.Attribute) else ""
